@@ -172,7 +172,63 @@ pub trait Scenario: Sync {
 }
 
 /// Runs one execution with the given choice prefix.
+/// Executions in progress: thread -> (start, scenario, choice prefix). A watchdog thread turns an
+/// execution that makes no progress in wall-clock time (a worker blocked for good inside the
+/// code under test, e.g. on a lock held across an await) into a verdict instead of a hang.
+static RUNNING: std::sync::Mutex<Vec<(std::thread::ThreadId, std::time::Instant, String, Vec<u16>)>> =
+    std::sync::Mutex::new(Vec::new());
+static WATCHDOG: std::sync::Once = std::sync::Once::new();
+
+fn start_watchdog() {
+    WATCHDOG.call_once(|| {
+        let limit = std::env::var("VERIF_EXEC_WALL")
+            .ok()
+            .and_then(|s| s.parse().ok())
+            .unwrap_or(240u64);
+        std::thread::spawn(move || loop {
+            std::thread::sleep(Duration::from_secs(2));
+            let stuck = RUNNING
+                .lock()
+                .unwrap()
+                .iter()
+                .find(|r| r.1.elapsed() > Duration::from_secs(limit))
+                .map(|r| (r.2.clone(), r.3.clone()));
+            if let Some((scenario, prefix)) = stuck {
+                let prop = crate::report::current_property();
+                let sig = format!("no-deadlock|execution|blocked-thread:{scenario}");
+                let dir = crate::report::verif_root().join("replays").join(&prop);
+                let _ = std::fs::create_dir_all(&dir);
+                let path = dir.join(format!("{:016x}.json", crate::key128(&sig) as u64));
+                let _ = std::fs::write(
+                    &path,
+                    serde_json::json!({"property": prop, "signature": sig,
+                        "witness": {"scenario": scenario, "choices": prefix, "engine": "E2",
+                            "note": "the execution did not finish within the wall-clock limit: a thread of the explored runtime is blocked inside the code under test"}})
+                    .to_string(),
+                );
+                crate::out(&format!(
+                    "VIOLATION property={prop} replay={} signature={sig} detail=one execution made no progress for {limit} s of wall-clock time (choice prefix {prefix:?}); a thread is blocked inside the code under test",
+                    path.display()
+                ));
+                std::process::exit(1);
+            }
+        });
+    });
+}
+
 pub fn execute<S: Scenario>(s: &S, prefix: &[u16]) -> ExecResult<S::Obs> {
+    start_watchdog();
+    let me = std::thread::current().id();
+    RUNNING
+        .lock()
+        .unwrap()
+        .push((me, std::time::Instant::now(), s.name(), prefix.to_vec()));
+    let r = execute_inner(s, prefix);
+    RUNNING.lock().unwrap().retain(|r| r.0 != me);
+    r
+}
+
+fn execute_inner<S: Scenario>(s: &S, prefix: &[u16]) -> ExecResult<S::Obs> {
     EXEC.with(|e| {
         *e.borrow_mut() = Some(Exec {
             prefix: prefix.to_vec(),
